@@ -151,10 +151,65 @@ def check(prog, run):
                                'the single-line form concatenates the text directly with the closing """ but no test on a '
                                "trailing %s precedes it: the printed text does not lex back to the same string" % label)
 
-    # ---- P1 purity
-    r = run.rule("P1", "no method of ASTPrinter or helper of printer.py writes module/class state or iterates a set", 30)
+    # ---- D4 omission decisions never look at string content
+    r = run.rule("D4", "the printer decides whether to emit a slot from the slot itself (`is None`, list emptiness), never from "
+                       "the truthiness of a StringValue's content: the empty string is a legal description/string and must "
+                       "print (truth contexts: if/ternary/while tests, and/or/not operands, comprehension filters, and "
+                       "arguments of helpers that truth-test their parameter)", 20)
     mod = prog.module(PRINTER)
     fns = [f for f in prog.all_funcs() if f.module is mod]
+    truth_params = {}
+    for f in fns:
+        if f.cls is not None:
+            continue
+        ps = [a.arg for a in f.node.args.args]
+        # a helper *drops* its parameter when the parameter alone decides between a result and the empty string
+        for n in ast.walk(f.node):
+            test = None
+            if isinstance(n, ast.IfExp) and any(isinstance(b, ast.Constant) and b.value == "" for b in (n.body, n.orelse)):
+                test = n.test
+            elif isinstance(n, ast.If) and any(isinstance(b, ast.Return) and isinstance(b.value, ast.Constant) and b.value.value == ""
+                                               for b in n.body + n.orelse):
+                test = n.test
+            if test is not None:
+                ops = _split_truth(test)
+                if len(ops) == 1 and isinstance(ops[0], ast.Name) and ops[0].id in ps:
+                    truth_params.setdefault(f.name, set()).add(ps.index(ops[0].id))
+        for n in ast.walk(f.node):
+            if isinstance(n, ast.comprehension) and isinstance(n.iter, ast.Name) and n.iter.id in ps and isinstance(n.target, ast.Name):
+                if any(isinstance(c, ast.Name) and c.id == n.target.id for i in n.ifs for c in _split_truth(i)):
+                    truth_params.setdefault(f.name, set()).add(("elements", ps.index(n.iter.id)))
+    str_slots = _string_value_slots(ncs)
+    for f in fns:
+        ptypes = {a.arg: nodeshape.ann_classes(a.annotation) for a in f.node.args.args}
+        cands = [(o, "truth test") for o in _truth_operands(f.node)]
+        for n in own_nodes(f.node):
+            if isinstance(n, ast.Call) and isinstance(n.func, ast.Name) and n.func.id in truth_params:
+                for spec in truth_params[n.func.id]:
+                    if isinstance(spec, tuple):
+                        if spec[1] < len(n.args) and isinstance(n.args[spec[1]], (ast.List, ast.Tuple)):
+                            cands.extend((e, "element of %s(), which drops falsy entries" % n.func.id) for e in n.args[spec[1]].elts)
+                    elif spec < len(n.args):
+                        cands.append((n.args[spec], "argument of %s(), which drops it when falsy" % n.func.id))
+        for o, how in cands:
+            r.instance("%s: %s" % (f.qualname, norm_stmt(o)[:60]))
+            if isinstance(o, ast.Call) and isinstance(o.func, ast.Name) and o.func.id == "len" and o.args:
+                o = o.args[0]
+            if not (isinstance(o, ast.Attribute) and o.attr == "value"):
+                continue
+            base = o.value
+            kinds = set()
+            if isinstance(base, ast.Name):
+                kinds = ptypes.get(base.id, set())
+            elif isinstance(base, ast.Attribute) and base.attr in str_slots:
+                kinds = {"StringValue"}
+            if "StringValue" in kinds:
+                run.report(r, "%s:%s:content-truthiness(%s)" % (PRINTER, f.qualname, norm_stmt(o)), f.where(o),
+                           "`%s` is the content of a StringValue and is used as a %s: an explicitly empty string/description "
+                           "is treated like an absent one and is not printed, so the re-parsed tree differs" % (norm_stmt(o), how))
+
+    # ---- P1 purity
+    r = run.rule("P1", "no method of ASTPrinter or helper of printer.py writes module/class state or iterates a set", 30)
     for f in fns:
         r.instance(f.qualname)
         for n in own_nodes(f.node):
@@ -172,6 +227,42 @@ def check(prog, run):
                     isinstance(n, (ast.For, ast.comprehension)) and isinstance(n.iter, ast.Call)
                     and isinstance(n.iter.func, ast.Name) and n.iter.func.id in ("set", "frozenset")):
                 run.report(r, "%s:%s:set-iteration" % (PRINTER, f.qualname), f.where(n.iter), "iteration over a set feeds the output")
+
+
+def _split_truth(e):
+    """Operands whose truthiness decides `e` (through and/or/not)."""
+    if isinstance(e, ast.BoolOp):
+        out = []
+        for v in e.values:
+            out.extend(_split_truth(v))
+        return out
+    if isinstance(e, ast.UnaryOp) and isinstance(e.op, ast.Not):
+        return _split_truth(e.operand)
+    return [e]
+
+
+def _truth_operands(fnode):
+    out = []
+    for n in ast.walk(fnode):
+        if isinstance(n, (ast.If, ast.IfExp, ast.While)):
+            out.extend(_split_truth(n.test))
+        elif isinstance(n, ast.comprehension):
+            for i in n.ifs:
+                out.extend(_split_truth(i))
+        elif isinstance(n, ast.BoolOp) and not isinstance(getattr(n, "_parent", None), (ast.If, ast.IfExp, ast.While, ast.BoolOp)):
+            out.extend(_split_truth(n))
+    return out
+
+
+def _string_value_slots(ncs):
+    """Slot names annotated (Optional[])StringValue in some node class constructor."""
+    out = set()
+    for nc in ncs.values():
+        a = nc.init.node.args
+        for x in list(a.args[1:]) + list(a.kwonlyargs):
+            if x.annotation is not None and "StringValue" in ast.unparse(x.annotation):
+                out.add(x.arg)
+    return out
 
 
 def _guarded_nonempty(sub, param):
